@@ -10,6 +10,7 @@ import json
 import os
 import random
 import re
+import shutil
 import subprocess
 import sys
 import time
@@ -43,7 +44,8 @@ TRUSTED_BASE_COMMON = [
     "(line protocol, canonical printing)",
     "python generators, differ and classifier in vlib/",
     "the Rust code is modelled by hand (coq/Model/*.v) and tied to /repo by differential execution "
-    "on every run; Gen/*.v is regenerated from /repo's bundled .sld sources on every run",
+    "on every run; Gen/*Sld.v is regenerated from /repo's bundled .sld sources and Gen/NativeNames.v (names of the "
+    "registered native procedures) from base.rs / write.rs on every run by the scanners in vlib/common.py",
 ]
 
 
@@ -110,9 +112,30 @@ def write_if_changed(path, content):
     return True
 
 
+NATIVE_SOURCES = {"base": "src/interpreter/library/native/base.rs", "write": "src/interpreter/library/native/write.rs"}
+NATIVE_RE = re.compile(r'function_mapping!\(\s*"([^"]*)"')
+
+
+def native_names():
+    """names of the native procedures the Rust source registers: the first string literal after every
+    `function_mapping!(` / `pure_function_mapping!(` of base.rs and write.rs"""
+    out = {}
+    for lib, rel in NATIVE_SOURCES.items():
+        with open(os.path.join(REPO, rel), "rb") as f:
+            out[lib] = NATIVE_RE.findall(f.read().decode("utf-8"))
+    return out
+
+
 def sld2v():
-    """bytes of the bundled Scheme sources -> list N literals (no parsing here)"""
+    """bytes of the bundled Scheme sources -> list N literals (no parsing here); names of the native procedures"""
     changed = []
+    names = native_names()
+    body = "".join("Definition native_%s_names : list (list N) := [%s].\n"
+                   % (lib, "; ".join("[" + "; ".join(str(ord(c)) for c in n) + "]" for n in ns)) for lib, ns in sorted(names.items()))
+    v = ("(* generated from /repo/src/interpreter/library/native/{base,write}.rs on every run by vlib/common.py:sld2v -- do not edit *)\n"
+         "From Coq Require Import NArith List.\nImport ListNotations.\nLocal Open Scope N_scope.\n" + body)
+    if write_if_changed(os.path.join(COQ, "Gen", "NativeNames.v"), v):
+        changed.append("NativeNames")
     for mod, (rel, name) in SLD_SOURCES.items():
         with open(os.path.join(REPO, rel), "rb") as f:
             text = f.read().decode("utf-8")
@@ -391,7 +414,22 @@ def run_lines(exe, lines, timeout=600, shards=None, env=None):
         t.start()
     for t in ths:
         t.join()
+    if exe == HARNESS_EXE:
+        sweep_scratch()
     return out
+
+
+def sweep_scratch():
+    """a harness process that died (abort, stack overflow, timeout) leaves its capture directory
+    h<pid> behind; remove those whose process is gone"""
+    base = os.environ.get("VHARNESS_SCRATCH", os.path.join(CACHE, "scratch"))
+    try:
+        names = os.listdir(base)
+    except OSError:
+        return
+    for nm in names:
+        if re.fullmatch(r"h\d+", nm) and not os.path.exists("/proc/" + nm[1:]):
+            shutil.rmtree(os.path.join(base, nm), ignore_errors=True)
 
 
 def differential(lines, timeout=900, env=None):
@@ -554,6 +592,15 @@ def run_cases(ctx, cases, compare=None, classify=None, limit=10, timeout=900):
         ml, il = m[a:b], i[a:b]
         if compare is compare_fuel:
             differs = not fuel_prefix_equal(ml, il)
+        elif compare and getattr(compare, "stop", None):
+            # compare.stop(model line, implementation line): from this line on the case decides nothing
+            differs = False
+            for x, y in zip(ml, il):
+                if compare.stop(x, y):
+                    break
+                if not compare(c, x, y):
+                    differs = True
+                    break
         elif compare:
             differs = not all(compare(c, x, y) for x, y in zip(ml, il))
         else:
@@ -608,6 +655,8 @@ def replay_case(ctx, path, compare=None):
     undecided = False
     for l, x, y in zip(lines, m, i):
         if compare is compare_fuel and x.startswith("(outoffuel)"):
+            undecided = True
+        if compare and getattr(compare, "stop", None) and compare.stop(x, y):
             undecided = True
         same = True if undecided else (compare(case, x, y) if compare else x == y)
         print(l[:200], "\n   model:", x[:600], "\n   impl: ", y[:600],
